@@ -362,9 +362,35 @@ def r_domain(c):
             "the same else-branch of the lowering")
 
 
+def r_reshape_passthrough(c):
+    """a group of axes that is reshaped onto itself passes its index variables
+    through, whatever its rank: zero-size arrays give groups of several axes (their
+    axes cannot be split into independent groups), and reshape((0, 2) -> (0, 2)) is
+    a valid program"""
+    m = c.model
+    fd = m.func("pytato.transform.lower_to_index_lambda._generate_index_expressions")
+    os_, ns_, iv = fd.args.args[0].arg, fd.args.args[1].arg, fd.args.args[3].arg
+    br = [i for i in fd.body if isinstance(i, ast.If) and ast.unparse(i.test) in (
+        f"{os_} == {ns_}", f"{ns_} == {os_}")]
+    if len(br) != 1:
+        raise AnalysisError("anchor vanished: pass-through branch of "
+                            "_generate_index_expressions")
+    rets = [r for r in ast.walk(br[0]) if isinstance(r, ast.Return)]
+    rank_asserts = [a for a in ast.walk(br[0]) if isinstance(a, ast.Assert) and any(
+        isinstance(x, ast.Compare) and ast.unparse(x.left) in (f"len({os_})", f"len({ns_})")
+        and isinstance(x.comparators[0], ast.Constant) for x in ast.walk(a.test))]
+    ok = len(rets) == 1 and ast.unparse(rets[0].value) in (f"tuple({iv})", iv) \
+        and not rank_asserts
+    c.check(ok, "R02-DOMAIN", "transform.lower_to_index_lambda._generate_index_expressions",
+            "identity-group-passes-through-at-any-rank", m.loc(m.module_of(fd), br[0]),
+            "the pass-through branch for a group reshaped onto itself asserts a rank or "
+            f"returns `{ast.unparse(rets[0].value) if rets else None}` instead of all index "
+            "variables: lowering reshape((0, 2) -> (0, 2)) fails with AssertionError")
+
+
 SPEC = Spec(
     prop="C02",
-    rules=[r_total, r_meta, r_consume, r_bind, r_sibling, r_domain, r_sibling_adv],
+    rules=[r_total, r_meta, r_consume, r_bind, r_sibling, r_domain, r_sibling_adv, r_reshape_passthrough],
     floors={"R02-TOTAL": 30, "R02-META": 70, "R02-CONSUME": 20, "R02-BIND": 14,
             "R02-DOMAIN": 3, "R02-SIBLING": 4},
     explanation=(
